@@ -313,6 +313,16 @@ def recorded_circuit_diff(entry, circuit):
                 return "recorded circuit has a different unitary"
     return None
 
+def amplitudes_symbol_free(circuit):
+    """does the state prepared from |0..0> have numeric amplitudes although the circuit has free symbols?
+    (independent computation on a fresh SymbolicSimulator, not logged)"""
+    saved, _ACTIVE["log"] = _ACTIVE["log"], None
+    try:
+        st, wf = outcome(lambda: SymbolicSimulator().get_wavefunction(circuit), timeout=30)
+    finally:
+        _ACTIVE["log"] = saved
+    return st == "ok" and not wf.free_symbols
+
 ERRS = {"ValueError": "ValueError", "TypeError": "TypeErr", "Other:AttributeError": "AttrError"}
 
 # ------------------------------------------------------------------ generator
@@ -388,6 +398,12 @@ def gen_call(rng, rspec, custom=None):
             spec = gen_circuit(rng, False, allow_free)
             return add_custom_ops(rng, spec, custom, allow_free) if rng.random() < 0.8 else spec
         return gen_circuit(rng, rng.random() < (0.1 if tracked else 0.6 if is_sim else 0.3), allow_free)
+    def numeric_custom(spec):
+        # For the EXACT distribution / expectation value the model assumes "free symbols => TypeError" (the final
+        # amplitudes are symbolic).  That holds when the symbol enters through a rotation RY(theta); a phase or
+        # permutation gate with a symbolic parameter can leave every amplitude numeric (0 * exp(I*theta) == 0), and
+        # then the library succeeds.  Those calls get their user-defined gates with numeric parameters only.
+        return dict(spec, ops=[(o[:4] + [0.5]) if (o[0] == 8 and o[4] == "theta") else o for o in spec["ops"]])
     bad = rng.random() < 0.4
     r = rng.random()
     if r < 0.3:
@@ -411,13 +427,13 @@ def gen_call(rng, rspec, custom=None):
         return dict(op="batch", cs=cs, ns=ns)
     if r < 0.85:
         if rng.random() < 0.3:
-            return dict(op="dist", c=circ(), n=None)
+            return dict(op="dist", c=numeric_custom(circ()), n=None)
         return dict(op="dist", c=circ(), n=rng.choice([0, -4]) if bad else rng.randint(1, 9))
     if not is_sim and rng.random() < 0.7:
         return dict(op="run", c=circ(), n=rng.randint(1, 9))
     if rng.random() < 0.5:
         return dict(op="wf", c=circ())
-    return dict(op="exact", c=circ(), operator=rng.choice(OPERATORS))
+    return dict(op="exact", c=numeric_custom(circ()), operator=rng.choice(OPERATORS))
 
 def gen(rng, tier):
     n = {"quick": 500, "search": 300}.get(tier, 10000)
@@ -459,6 +475,7 @@ def _run_case(inp, tmpdir):
     fails = []          # (tag, message); tag "F6" marks the known zero-width observation
     calls_lit, obs_lit = [], []
     unmodelled = None
+    outside = None      # the history leaves the domain the model is stated for (see props/C14.json, assumptions)
     n_ok = n_rejected = 0
     f28_seen = [False] * len(trackers)      # a non-gate circuit already made this tracker fail while recording
     _ACTIVE["log"] = log
@@ -513,6 +530,9 @@ def _run_case(inp, tmpdir):
             lit = f"(Exact {c_circuit(abstract(c))} {cz(oper.n_qubits)})"
         else:
             raise ValueError(op)
+        if (op == "exact" or (op == "dist" and n is None)) and not leaf_is_base and c.free_symbols \
+                and amplitudes_symbol_free(c):
+            outside = f"call {idx} {op}: free symbols {sorted(map(str, c.free_symbols))} drop out of the amplitudes"
         calls_lit.append(lit)
         events = to_segments(list(log))
         after_cnt = [(x.n_circuits_executed, x.n_jobs_executed) for x in lv]
@@ -654,12 +674,14 @@ def _run_case(inp, tmpdir):
                 fails.append(("tracker", f"{where}: tracker file changed although the call raised"))
 
     chk = "false" if unmodelled else f"history_eqb {runner_lit} {clist(calls_lit)} {clist(obs_lit)}"
+    if outside and not unmodelled:
+        chk = None      # oracle only: the model assumes that the exact distribution / expectation of such a circuit raises
     other = [m for t, m in fails if t not in ("F6", "F28")]
     f6 = [m for t, m in fails if t == "F6"]
     f28 = [m for t, m in fails if t == "F28"]
     return dict(chk=chk, oracle_ok=not fails, oracle_msg="; ".join((other or f28 or f6)[:4]),
                 sig=None if (other or not fails) else ("F28" if f28 else "F6"),
-                kind=runner_label(inp["runner"]) + ("+custom" if '"rot_' in json.dumps(inp["calls"]) else "")
+                kind=("outside-model:" if outside else "") + runner_label(inp["runner"]) + ("+custom" if '"rot_' in json.dumps(inp["calls"]) else "")
                 + ("+F6" if f6 else "") + ("+F28" if f28 else ""),
                 nontrivial=n_ok >= 2 and n_rejected >= 1)
 
